@@ -227,7 +227,7 @@ def run_stateful(ctx, n):
                             steps.append((mode, r, h, list(ws), got, expect([int(x) for x in ws], pop, h)))
             for i, (m, r, h, ws, got, want) in enumerate(steps):
                 ctx.case(("stateful", m, k, i, h, tuple(ws)), True)
-                if got != want:
+                if not common.same_outcome(got, want):
                     ctx.violation(
                         f"call {i} of a sequence ({m}, {k} items): deterministic_choice at position {h}/2^32 with weights whose values at the "
                         f"time of the call are {ws[:8]}{'…' if len(ws) > 8 else ''} returns {json.dumps(got)[:60]}; those values prescribe {json.dumps(want)[:60]}",
